@@ -108,6 +108,17 @@ Theorem C12_owner_withdraw : forall s sg tk uid amount prom s',
 Proof. exact withdraw_owner. Qed.
 Print Assumptions C12_owner_withdraw.
 
+(* ---- promoters: one promoter per address (CreatePromoter refuses a creator that already belongs to a promoter,
+   /repo commit 6834bf6).  Over every history from genesis: promoter uids are unique, an address has one by-address
+   entry, the entry names exactly the promoter whose address list contains the address, and no two promoters share
+   an address (so the category caps of a campaign are always counted against the promoter that created it). *)
+Theorem C12_promoter_unique : forall bk t l ops, let s := rrun (rinit bk t l) ops in
+  NoDup (map pm_uid (r_proms s)) /\ NoDup (map fst (r_promaddr s)) /\
+  (forall a u, prom_of_addr (r_promaddr s) a = Some u <-> exists p, In p (r_proms s) /\ pm_uid p = u /\ In a (pm_addrs p)) /\
+  (forall p q a, In p (r_proms s) -> In q (r_proms s) -> In a (pm_addrs p) -> In a (pm_addrs q) -> p = q).
+Proof. exact promoter_unique. Qed.
+Print Assumptions C12_promoter_unique.
+
 (* ---- non-vacuity ------------------------------------------------------------------------------------------------------------ *)
 (* C12_pool / C12_pool_genesis / C12_pool_partial / C12_avail_nonneg / C12_genesis: a history from genesis in which a
    campaign is created, a reward granted, the campaign topped up and partly withdrawn, every step succeeding *)
@@ -150,4 +161,11 @@ Example C12_owner_witness :
   let s := rrun wit_state (good_ops ++ [good_grant]) in
   snd (rstep s good_update) = ROk /\ snd (rstep s good_withdraw) = ROk /\
   snd (rstep s (RWithdraw 1 wit_tk 0 300 0)) = RErr /\ snd (rstep s (RUpdateCampaign 1 wit_tk 0 500 2000 true)) = RErr.
+Proof. vm_compute. repeat split; reflexivity. Qed.
+
+(* C12_promoter_unique: two addresses become promoters; a second promoter for address 0 is refused, as is a reused uid *)
+Example C12_promoter_witness :
+  let s := rrun wit_state [RBegin 101; RCreatePromoter 0 wit_tk 0 []; RCreatePromoter 1 wit_tk 1 [(CAT_SIGNUP, 1)]] in
+  (r_promaddr s, map pm_uid (r_proms s)) = ([(0, 0); (1, 1)], [0; 1]) /\
+  snd (rstep s (RCreatePromoter 0 wit_tk 2 [])) = RErr /\ snd (rstep s (RCreatePromoter 1 wit_tk 0 [])) = RErr.
 Proof. vm_compute. repeat split; reflexivity. Qed.
